@@ -224,7 +224,9 @@ func vfRunSender(t *testing.T, sc *vfCcfbScript, out *vfWriter) { //nolint:cyclo
 			clock.Set(vfAt(sc.Base, st.Now))
 			failNow.Store(st.WFail)
 			select {
-			case tick.c <- vfAt(sc.Base, st.Now):
+			// (the value a ticker delivers is the ticker's business - wall-clock tick time as a rule; the report time and
+			// the arrival offsets are about the CONFIGURED clock, SenderNow, so the tick carries an unrelated instant)
+			case tick.c <- vfAt(sc.Base, st.Now).Add(-3*time.Hour - 77*time.Millisecond):
 			case <-time.After(20 * time.Second):
 				t.Fatalf("VERIF-INFRA the interceptor loop did not accept a tick within 20 s")
 			}
